@@ -609,10 +609,11 @@ def gen_bodies(ck, rng, n):
             parts.append(str(rng.choice([1, 2, 12, 13, 14, 35, 0, 999])))
         k = rng.choice([1, 1, 1, 2, 3])
         parts.append(','.join(rng.choice(elements) for _ in range(k)))
+        seps = []       # charge / stereo marks written as ';' segments of their own (the documented preferable form)
         if rng.random() < .15:
-            parts.append(rng.choice(['@', '@@', '@?']))
+            (seps if rng.random() < .5 else parts).append(rng.choice(['@', '@@', '@?']))
         if rng.random() < .3:
-            parts.append(rng.choice(['+', '-', '++', '--', '+2', '-3', '+4', '+-', '-+', '+5', '+1', '-1']))
+            (seps if rng.random() < .5 else parts).append(rng.choice(['+', '-', '++', '--', '+2', '-3', '+4', '+-', '-+', '+5', '+1', '-1']))
         prims = []
         for _ in range(rng.choice([0, 1, 1, 2, 3])):
             t = rng.choice('DhrxzDhrxz' + 'aAMR')
@@ -629,6 +630,8 @@ def gen_bodies(ck, rng, n):
                 if rng.random() < .1:
                     vals.append(vals[0])
                 prims.append(','.join(t + str(v) for v in vals))
+        for x in seps:      # in any position among the primitives
+            prims.insert(rng.randrange(len(prims) + 1), x)
         body = ''.join(parts) + ''.join(';' + p for p in prims)
         if rng.random() < .2:
             body += ':' + str(rng.choice([1, 2, 10, 999, 0]))
@@ -638,6 +641,37 @@ def gen_bodies(ck, rng, n):
             c = rng.choice(BODY_ALPHA + 'HOSl_. 3459')
             out.append(rng.choice([body[:i] + body[i + 1:], body[:i] + body[i] + body[i:], body[:i] + c + body[i + 1:], body[:i] + c + body[i:]]))
     return [x for x in out if x and all(32 < ord(c) < 127 and c not in '[]"' for c in x)]
+
+
+def sep_bodies(ck):
+    """every way of writing ONE charge or stereo mark (glued to the element, or as a ';' segment before / between / after the
+    primitives) x element spellings x one or two primitives of every kind; two marks (stereo and charge) in every pair of positions"""
+    heads = ['C', 'N', '#8', 'C,N', 'A', '13C', 'Cl,Br']
+    marks = ['+', '-', '++', '-2', '@', '@@']
+    prims = ['D2', 'h1', 'r5,r6', 'x1', 'z2,z3', 'a', '!R', 'M', 'D1,D3']
+    sets = [[p] for p in prims] + [[p, q] for i, p in enumerate(prims) for q in prims[i + 1:] if not (p[0] == q[0] or {p, q} in ({'a', 'z2,z3'}, {'!R', 'r5,r6'}))]
+    if ck.tier == 'quick':
+        sets = sets[:len(prims)] + sets[len(prims) + ck.seed % 3::3]
+    out = []
+    for h_i, h in enumerate(heads):
+        for ps in sets:
+            for m_i, mk in enumerate(marks):
+                if ck.tier == 'quick' and len(ps) == 2 and (h_i + m_i) % 2:
+                    continue
+                out.append(h + mk + ''.join(';' + p for p in ps))
+                for pos in range(len(ps) + 1):
+                    out.append(';'.join([h] + ps[:pos] + [mk] + ps[pos:]))
+    for h in heads[:4]:
+        for ps in sets[:len(prims)] + sets[len(prims)::7]:
+            for st in ('@', '@@'):
+                for chg in ('+', '-'):
+                    for i in range(len(ps) + 1):
+                        for j in range(len(ps) + 1):
+                            segs = list(ps)
+                            segs.insert(i, st)
+                            segs.insert(j, chg)
+                            out.append(';'.join([h] + segs))
+    return list(dict.fromkeys(out))
 
 
 def corr_parse(ck):
@@ -669,7 +703,9 @@ def corr_parse(ck):
         # (the real smarts() runs on all of them: exception classes are always checked)
         if ck.tier == 'thorough' or len(pre) < 2 or (k_ + ck.seed) % 3 == 0:
             ba.add(f'sw_atom {cstr(pre)} al {cstr(chr(10).join(ra))}', (pre, ra))
-    bodies = gen_bodies(ck, rng, 350 if ck.tier == 'quick' else 7000)
+    sep = sep_bodies(ck)
+    ck.count('parse:separated-mark-bodies', len(sep))
+    bodies = gen_bodies(ck, rng, 350 if ck.tier == 'quick' else 7000) + (sep if ck.tier == 'thorough' else sep[ck.seed % 4::4])
     for i in range(0, len(bodies), 25):
         part = bodies[i:i + 25]
         rp = [real_parse(x) for x in part]
@@ -694,16 +730,53 @@ def corr_parse(ck):
 # ----------------------------------------------------------------------------------------------------------------
 # property-level oracle for bracket atoms: an independent reader of canonical bodies
 
-CANON = re.compile(r'^(?P<iso>[1-9][0-9]*)?(?P<el>[A-Z][a-z]?(?:,[A-Z][a-z]?)*|#[0-9]+(?:,#[0-9]+)*)(?P<st>@@?)?(?P<chg>\+\+?|--?|[+-][1-4])?'
-                   r'(?P<prims>(?:;(?:!R|a|M|[Dhrxz][0-9]+(?:,[Dhrxz][0-9]+)*))*)(?::(?P<map>[1-9][0-9]*))?$')
+HEAD = re.compile(r'^(?P<iso>[1-9][0-9]*)?(?P<el>[A-Z][a-z]?(?:,[A-Z][a-z]?)*|#[0-9]+(?:,#[0-9]+)*)(?P<st>@@?)?(?P<chg>\+\+?|--?|[+-][1-4])?$')
+SEG_CHG = re.compile(r'^(?:\+\+?|--?|[+-][1-4])$')
+SEG_PRIM = re.compile(r'^(?:!R|a|M|[Dhrxz][0-9]+(?:,[Dhrxz][0-9]+)*)$')
+
+
+class _Body:
+    """the segments of a bracket body of the documented subset, read by splitting at ';' (independent of the code's scans):
+    [isotope] elements [@|@@] [charge] (';' (charge | @ | @@ | primitive))* [':' number]; the charge and the stereo mark may be
+    glued to the element or stand as a segment of their own in ANY position ("<;> ... preferable for charge, stereo marks")"""
+
+    def __init__(self, body):
+        self.ok = False
+        mp = re.search(r':([1-9][0-9]*)$', body)
+        if mp:
+            body = body[:mp.start()]
+        self.map = int(mp.group(1)) if mp else None
+        segs = body.split(';')
+        h = HEAD.match(segs[0])
+        if not h:
+            return
+        self.iso, self.el, self.st, self.chg = h['iso'], h['el'], h['st'], h['chg']
+        self.prims = []
+        for sg in segs[1:]:
+            if SEG_CHG.match(sg):
+                if self.chg:
+                    return      # two charge marks: not defined
+                self.chg = sg
+            elif sg in ('@', '@@'):
+                if self.st:
+                    return
+                self.st = sg
+            elif SEG_PRIM.match(sg):
+                self.prims.append(sg)
+            else:
+                return
+        self.ok = True
+
+    def __getitem__(self, k):
+        return getattr(self, k)
 
 
 def ref_body(body):
-    """what a canonical bracket body denotes, read independently (regular expression + the documentation of smarts());
-    None when the body is not in canonical form or the documented subset does not define it"""
+    """what a bracket body of the documented subset denotes, read independently (split at ';' + the documentation of smarts());
+    None when the body is outside the subset or the documentation does not define it"""
     from chython.periodictable import Element
-    m = CANON.match(body)
-    if not m:
+    m = _Body(body)
+    if not m.ok:
         return None
     d = dict(iso=int(m['iso']) if m['iso'] else None, chg=0, nb=(), hyb=(), h=(), het=(), rings=())
     if m['chg']:
@@ -711,7 +784,7 @@ def ref_body(body):
         d['chg'] = (1 if c[0] == '+' else -1) * (int(c[1]) if c[-1].isdigit() else len(c))
     seen = set()
     reject = False
-    for p in m['prims'].split(';')[1:]:
+    for p in m['prims']:
         if p == 'a':
             key, val = 'hyb', (4,)
         elif p == '!R':
@@ -743,17 +816,26 @@ def ref_body(body):
             nums.append(Element.from_atomic_number(int(e[1:]))().atomic_number if e[0] == '#' else Element.from_symbol(e)().atomic_number)
         except Exception:
             return None
+    marks = (None if not m['st'] else m['st'] == '@', 'M' in m['prims'])
+    def mk(*a, **kw):
+        q = Q(*a, **kw)
+        q.marks = marks      # (stereo mark, masked flag) the spelling asks for
+        return q
     if len(nums) > 1:
         if any(isinstance(x, str) for x in nums) or d['iso'] is not None:
             return None
-        return Q('L', nums=nums, **{k: v for k, v in d.items() if k != 'iso'})
+        return mk('L', nums=nums, **{k: v for k, v in d.items() if k != 'iso'})
     if nums[0] == 'A':
-        return None if d['iso'] is not None else Q('A', **{k: v for k, v in d.items() if k != 'iso'})
+        return None if d['iso'] is not None else mk('A', **{k: v for k, v in d.items() if k != 'iso'})
     if nums[0] == 'M':
         if d['iso'] is not None or d['chg'] or d['h'] or d['het'] or d['rings'] or m['st']:
             return None
-        return Q('M', nb=d['nb'], hyb=d['hyb'])
-    return Q('E', num=nums[0], **d)
+        return mk('M', nb=d['nb'], hyb=d['hyb'])
+    return mk('E', num=nums[0], **d)
+
+
+def marks_of(a):
+    return (getattr(a, 'stereo', None), bool(a.masked))
 
 
 def q_show(q):
@@ -780,10 +862,14 @@ def check_body(ck, body, where):
                               replay_py=f"import checks.C08 as c\nprint(c.real_atom({body!r})[0])")
     elif want is not None:
         ck.count(f'{where}:canonical')
-        if got != q_show(want):
+        if re.search(r';[-+@]', body):
+            ck.count(f'{where}:canonical-with-separated-mark')
+        gm = () if got.startswith('!') else marks_of(obj)
+        if got != q_show(want) or gm != want.marks:
             ck.counterexample(f'smarts-atom-denotation:{primitive_of(want)}', "smarts('[body]') does not build the documented query atom",
-                              {'smarts': '[' + body + ']'}, got, q_show(want), 'independent reader of canonical bracket bodies',
-                              replay_py=f"import checks.C08 as c\nprint(c.real_atom({body!r})[0], c.q_show(c.ref_body({body!r})))")
+                              {'smarts': '[' + body + ']'}, (got,) + gm, (q_show(want),) + want.marks,
+                              'independent reader of bracket bodies (split at ;): class, element(s), isotope, charge, value tuples, stereo mark, masked flag',
+                              replay_py=f"import checks.C08 as c\nprint(c.real_atom({body!r}), c.q_show(c.ref_body({body!r})), c.ref_body({body!r}).marks)")
 
 
 def directed_bodies(ck, bodies):
@@ -1153,6 +1239,8 @@ def search_stream(ck):
     # single bracket atoms of the documented subset, each read independently
     for body in gen_bodies(ck, rng, 600 if ck.tier == 'quick' else 6000):
         check_body(ck, body, 'body')
+    for body in sep_bodies(ck):         # the charge / stereo mark in every position among the primitives
+        check_body(ck, body, 'body-sep')
     # from_atom: a query made from an atom matches that atom; ring part as documented
     from chython import smiles
     from chython.periodictable import QueryElement
@@ -1221,7 +1309,8 @@ def search_rdkit(ck):
     RDLogger.DisableLog('rdApp.*')
     pool = ['c1ccccc1C(=O)O', 'C1CC1CC#N', 'C[N+](C)(C)CC([O-])=O', 'C1CC2CCC1CC2', 'O=C1NC=CC=C1', 'ClC(Cl)=C=C', 'c1ccc2[nH]ccc2c1', 'FC(F)(F)c1ccncc1',
             '[13CH3]O', 'CS(=O)(=O)N', 'C1CCCCCCC1', 'C12CC1C2', 'c1ccc[nH]c1=O', 'Cn1ccccc1=O', 'O=c1cccc[nH]1', 'c1cc(=O)cc[nH]1',
-            'O=c1[nH]c(=O)c2ccccc2[nH]1', 'c1ccoc(=O)c1'] + corpus.sample(corpus.lipo(), 110 if ck.tier == 'quick' else 1500, ck.seed, 'c08-rdkit')
+            'O=c1[nH]c(=O)c2ccccc2[nH]1', 'c1ccoc(=O)c1', 'C[NH+](C)C', 'C[NH2+]C', 'C[NH3+]', 'C[N+](=O)[O-]', 'C[O-]', 'C[OH+]C', 'C[S-]',
+            'C[n+]1ccccc1', '[O-]c1ccccc1', 'C[N-]C'] + corpus.sample(corpus.lipo(), 110 if ck.tier == 'quick' else 1500, ck.seed, 'c08-rdkit')
     qcache = {}
     def query(text):
         """the query of a documented SMARTS; None (and a counterexample) when the implementation rejects it"""
@@ -1270,6 +1359,13 @@ def search_rdkit(ck):
             tests.append((f'[{e};!R]', lambda t, el=el: el(t) and neutral(t) and not t['in_ring'], ('in_ring',)))
             tests.append((f'[{e}+]', lambda t, el=el: el(t) and t['chg'] == 1, ()))
             tests.append((f'[{e}-]', lambda t, el=el: el(t) and t['chg'] == -1, ()))
+            # the charge as a ';' segment of its own BEFORE / BETWEEN other primitives: all of them still hold
+            for sign, c in (('+', 1), ('-', -1)):
+                for k in range(0, 5):
+                    tests.append((f'[{e};{sign};D{k}]', lambda t, k=k, c=c, el=el: el(t) and t['chg'] == c and t['nb'] == k, ('nb',)))
+                    tests.append((f'[{e};{sign};h{k}]', lambda t, k=k, c=c, el=el: el(t) and t['chg'] == c and t['h'] == k, ('h',)))
+                tests.append((f'[{e};D1,D2;{sign};x0,x1]', lambda t, c=c, el=el: el(t) and t['chg'] == c and t['nb'] in (1, 2) and t['het'] in (0, 1), ('nb', 'het')))
+                tests.append((f'[{e};{sign};z1;!R]', lambda t, c=c, el=el: el(t) and t['chg'] == c and t['hyb'] == 1 and not t['in_ring'], ('hyb', 'in_ring')))
             tests.append((f'[{e};D2,D3;h1]', lambda t, el=el: el(t) and neutral(t) and t['nb'] in (2, 3) and t['h'] == 1, ('nb', 'h')))
             tests.append((f'[{e};z2;x1,x2]', lambda t, el=el: el(t) and neutral(t) and t['hyb'] == 2 and t['het'] in (1, 2), ('hyb', 'het')))
             tests.append((f'[{e};D3;r6]', lambda t, el=el: el(t) and neutral(t) and t['nb'] == 3 and 6 in t['rings'], ('nb', 'rings')))
